@@ -372,7 +372,7 @@ fn aligned(frame: &[u8]) -> AlignedVec {
     v
 }
 
-#[derive(Debug)]
+#[derive(Debug, PartialEq)]
 enum Verdict {
     Accepted,
     Rejected,
@@ -541,6 +541,38 @@ fn frames_part(tier: Tier, st: &mut Stats) -> Vec<(&'static str, String, Vec<u8>
     family!(Knob, "tiny-3-bytes", vec![Knob { channel: 7, level: 9, attempt: 3 }, Knob { channel: 0, level: 0, attempt: 0 }]);
     family!(Half, "tiny-u16", vec![Half { v: 1801 }]);
     family!(Five, "tiny-6-bytes", vec![Five { bytes: [1, 2, 3, 4, 5], mode: Mode::High }]);
+    // frames larger than one 16 KiB block (a checksum computed block-wise must still cover
+    // the tail, where rkyv puts the root): every bit of the first 8 and the last 128 bytes,
+    // a stride through the middle, and short truncations (added after the seeded change C12-f)
+    {
+        let big_sizes: Vec<usize> = if tier.is_thorough() { vec![16_300, 16_400, 20_000, 33_000, 70_000, 140_000] } else { vec![16_400, 20_000, 40_000] };
+        for n in big_sizes {
+            let v = Texty { name: "big".into(), blob: blob(n), maybe: Some(n as u32) };
+            let frame = datacake_rpc::to_view_bytes(&v).expect("serialize").to_vec();
+            st.inc("base_frames");
+            st.inc("large_base_frames");
+            check_frame::<Texty>("texty", "intact", "intact", &frame, Some(&v), st);
+            let len = frame.len();
+            let mut bits: Vec<usize> = (0..64).collect();
+            bits.extend((len - 128) * 8..len * 8);
+            bits.extend(((64..(len - 128) * 8).step_by(tier.pick(4099, 1021))).collect::<Vec<_>>());
+            for bit in bits {
+                let mut f = frame.clone();
+                f[bit / 8] ^= 1 << (bit % 8);
+                let where_ = if bit / 8 >= len - 4 { "bit-flip-in-trailer" } else if bit / 8 >= len - 128 { "bit-flip-in-tail-of-large-body" } else { "bit-flip-in-body" };
+                check_frame::<Texty>("texty", &format!("flip bit {bit} of a {len}-byte frame"), where_, &f, None, st);
+                st.inc("bit_flips");
+                if bit % 257 == 0 || bit / 8 >= len - 32 {
+                    hostile.push(("texty", format!("flip bit {bit} of a {len}-byte frame"), f));
+                }
+            }
+            for cut in 1..=8usize {
+                let f = frame[..len - cut].to_vec();
+                check_frame::<Texty>("texty", &format!("truncate a {len}-byte frame by {cut}"), "truncation", &f, None, st);
+                st.inc("truncations");
+            }
+        }
+    }
     // Status itself is what the client decodes on the error path
     {
         let v = Status::internal("some error");
@@ -579,6 +611,19 @@ async fn hostile_dispatch(hostile: &[(&'static str, String, Vec<u8>)], st: &mut 
         };
         if !reject {
             continue; // intact by coincidence: not a hostile frame
+        }
+        // a frame the view wrongly accepts has already been reported by part (b); handing it
+        // to a handler would make that handler decode garbage (lengths of gigabytes: the
+        // allocation failure aborts the whole checker instead of yielding a verdict)
+        let accepted_by_view = match *kind {
+            "fixed" => using::<Fixed>(frame).0 == Verdict::Accepted,
+            "texty" => using::<Texty>(frame).0 == Verdict::Accepted,
+            "nested" => using::<Nested>(frame).0 == Verdict::Accepted,
+            _ => using::<FailWith>(frame).0 == Verdict::Accepted,
+        };
+        if accepted_by_view {
+            st.inc("hostile_frames_not_dispatched_because_the_view_accepts_them");
+            continue;
         }
         st.inc("hostile_frames_dispatched");
         let before = invocations();
